@@ -458,6 +458,60 @@ theorem populate_true {src : Vocab R d1} {tgt : Vocab R d2} (hws : Spec.WF src)
             ((mem_missingKeys hws).mpr ⟨mem_requestedKeys.mpr ⟨h1, h2⟩, hc⟩)))
       · rw [← hused]; simp
 
+/-! ### a vocabulary translated onto itself -/
+
+theorem sum_swap_aux {ι κ : Type} [Fintype ι] [DecidableEq κ] (S : Finset κ) (a : ι → R) (b : κ → ι → R)
+    (c : κ → R) : ∑ j, a j * ∑ k ∈ S, b k j * c k = ∑ k ∈ S, (∑ j, a j * b k j) * c k := by
+  have h1 : ∀ j, a j * ∑ k ∈ S, b k j * c k = ∑ k ∈ S, a j * b k j * c k := by
+    intro j; rw [Finset.mul_sum]; apply Finset.sum_congr rfl; intro k _; ring
+  simp only [h1]
+  rw [Finset.sum_comm]
+  apply Finset.sum_congr rfl; intro k _
+  rw [Finset.sum_mul]
+
+/-- the outer-product sum of a vocabulary with ITSELF applied to `x` is `Σ_k v_k (v_k · x)` -/
+theorem outerSum_self_apply (v : Vocab R d1) {ks : List Key} (hnd : ks.Nodup) (x : Vec R d1) (i : Fin d1) :
+    mulVec (Spec.outerSum v v ks) x i = ∑ k ∈ ks.toFinset, v.vec k i * ∑ j, v.vec k j * x j := by
+  rw [mulVec_eq_sum]
+  simp only [outerSum_eq_finset v v hnd]
+  simp only [Finset.sum_mul, Finset.mul_sum, mul_assoc]
+  rw [Finset.sum_comm]
+
+/-- **translate_into_own_vocabulary_projects.**  Over orthonormal entries the transform of a vocabulary
+onto itself is a PROJECTOR onto the span of the used entries: applying it twice is applying it once. It is
+not the identity (`own_vocabulary_not_identity` below), so translating a pointer into its own vocabulary
+may not be skipped. -/
+theorem outerSum_self_idempotent (v : Vocab R d1) {ks : List Key} (hnd : ks.Nodup)
+    (horth : ∀ k ∈ ks, ∀ k' ∈ ks, ∑ j, v.vec k j * v.vec k' j = if k = k' then 1 else 0) (x : Vec R d1) :
+    mulVec (Spec.outerSum v v ks) (mulVec (Spec.outerSum v v ks) x) = mulVec (Spec.outerSum v v ks) x := by
+  funext i
+  rw [outerSum_self_apply v hnd, outerSum_self_apply v hnd]
+  apply Finset.sum_congr rfl
+  intro k hk
+  congr 1
+  have hk' := List.mem_toFinset.mp hk
+  calc ∑ j, v.vec k j * mulVec (Spec.outerSum v v ks) x j
+      = ∑ j, v.vec k j * ∑ k' ∈ ks.toFinset, v.vec k' j * ∑ l, v.vec k' l * x l := by
+        apply Finset.sum_congr rfl; intro j _; rw [outerSum_self_apply v hnd]
+    _ = ∑ k' ∈ ks.toFinset, (∑ j, v.vec k j * v.vec k' j) * ∑ l, v.vec k' l * x l :=
+        sum_swap_aux _ _ _ _
+    _ = ∑ k' ∈ ks.toFinset, (if k = k' then 1 else 0) * ∑ l, v.vec k' l * x l := by
+        apply Finset.sum_congr rfl; intro k' hk2
+        rw [horth k hk' k' (List.mem_toFinset.mp hk2)]
+    _ = ∑ l, v.vec k l * x l := by
+        simp [Finset.sum_ite_eq, hk]
+
+/-- the same for the transform `transform_to` returns when source and target are one vocabulary -/
+theorem translate_into_own_vocabulary_projects {v : Vocab R d1} (hw : Spec.WF v) {pop : Populate}
+    {keys : Option (List Key)} {ord : SetOrder} (ho : OrdOK ord) (hpair : Paired ord) {f1 f2 : Nat}
+    {ss ts : List (Vec R d1)} {r : TResult R d1 d1}
+    (h : transformTo v v pop keys none ord f1 f2 ss ts = .ok r) (hsame : r.tgt = v)
+    (horth : ∀ k ∈ Spec.usedKeys v v keys, ∀ k' ∈ Spec.usedKeys v v keys,
+      ∑ j, v.vec k j * v.vec k' j = if k = k' then 1 else 0) (x : Vec R d1) :
+    mulVec r.T (mulVec r.T x) = mulVec r.T x := by
+  rw [transform_eq_outer_sum hw hw ho hpair h, hsame]
+  exact outerSum_self_idempotent v (usedKeys_nodup _ _ _) horth x
+
 /-! ### translate -/
 
 /-- **translate_eq (fixed pointer).**  `p.translate(target, …)` is the transform
@@ -822,4 +876,20 @@ theorem pairing_needed : ∃ r, transformTo exSrc exTgt .no none none badOrder 1
     ex_e0, ex_e1] at h00
 
 end Examples
+/-- non-vacuity of the projector statement, and why the shortcut "same vocabulary: nothing to do" is wrong:
+translating `e1` into the vocabulary {A = e0} with the requested key `A` gives 0, not `e1` -/
+def exOwn : Vocab Rat 2 :=
+  { id := 5, entries := [("A", ex_e0)], strict := true, maxSim := 1/10, algebra := 7, gen := 3 }
+
+theorem own_vocabulary_not_identity :
+    mulVec (Spec.outerSum exOwn exOwn ["A"]) ex_e1 ≠ ex_e1 ∧
+    mulVec (Spec.outerSum exOwn exOwn ["A"]) ex_e0 = ex_e0 := by
+  constructor
+  · intro h
+    have := congrFun h 1
+    revert this
+    decide +kernel
+  · funext i
+    fin_cases i <;> decide +kernel
+
 end C13
